@@ -28,9 +28,9 @@ CONSTANTS MaxLen,       \* longest string explored by the scanner machine
           Alphabet,     \* its characters (one-character strings)
           Mut           \* model mutants switched on (sensitivity tests only); {} is the specification
 
-Explode(s) == [i \in 1..Len(s) |-> SubSeq(s, i, i)]
+ForceSeq(f) == f \o <<>>      \* TLC: evaluate a function constructor once, into a tuple
+Explode(s) == ForceSeq([i \in 1..Len(s) |-> SubSeq(s, i, i)])
 Implode(cs) == FoldLeft(LAMBDA acc, c : acc \o c, "", cs)
-ForceSeq(f) == f \o <<>>
 
 NL  == "\n"
 DQ  == "\""
@@ -102,7 +102,7 @@ ScanChars(cs, D) == FoldLeft(LAMBDA st, c : Step(st, c, D), Scan0, cs)
 BlankChars(cs, kept) == [i \in 1..Len(cs) |-> IF kept[i] = 1 THEN cs[i] ELSE SP]
 
 \* comment-free text of a (short) string: comments read as blanks, same length, same lines
-BlankOf(cs, D) == BlankChars(cs, ScanChars(cs, D).kept)
+BlankOf(cs, D) == LET kept == ScanChars(cs, D).kept IN ForceSeq(BlankChars(cs, kept))
 
 \* Long texts are scanned line by line (each element of `lines` ends with its new-line, except
 \* possibly the last): no marker contains a new-line, so st.pend is "" at every line start and the
